@@ -123,6 +123,47 @@ def first_diff(a, b, path="$"):
     return None if a == b else path + ":value"
 
 
+def walk_nodes(v):
+    import dataclasses
+    if dataclasses.is_dataclass(v) and not isinstance(v, type):
+        yield v
+        for f in dataclasses.fields(v):
+            yield from walk_nodes(getattr(v, f.name))
+    elif isinstance(v, (tuple, list)):
+        for x in v:
+            yield from walk_nodes(x)
+
+
+def supports(stmt, st):
+    """the round-trip predicate `Supports d t` of DESIGN §8 C01/C13: the dialect's printer prints every feature the tree uses
+    (the Hive DDL printer drops MySQL-only attributes by design and vice versa; Hive-only query clauses are printed for Hive only)"""
+    from metasequoia_sql import SQLType
+    from metasequoia_sql.core import node as N
+    for n in walk_nodes(stmt):
+        if isinstance(n, N.ASTDefineColumnExpression):
+            if st != SQLType.MYSQL and (n.is_unsigned or n.is_zerofill or n.character_set is not None or n.collate is not None
+                                        or n.generated_always_as is not None or n.is_allow_null or n.is_not_null or n.is_auto_increment
+                                        or n.default is not None or n.on_update is not None):
+                return False
+            if st == SQLType.HIVE and n.column_type.params is not None and n.column_type.name.upper() not in ("DECIMAL", "VARCHAR", "CHAR"):
+                return False
+        elif isinstance(n, N.ASTCreateTableStatement):
+            hive_only = (len(n.partitioned_by) > 0 or n.row_format_serde is not None or n.row_format_delimited_fields_terminated_by is not None
+                         or n.stored_as_inputformat is not None or n.stored_as_textfile or n.outputformat is not None or n.location is not None
+                         or len(n.tblproperties or ()) > 0)
+            mysql_only = (n.primary_key is not None or len(n.unique_key) > 0 or len(n.key) > 0 or len(n.fulltext_key) > 0 or len(n.foreign_key) > 0
+                          or n.engine is not None or n.auto_increment is not None or n.default_charset is not None or n.collate is not None
+                          or n.row_format is not None or n.states_persistent is not None)
+            if st == SQLType.MYSQL and hive_only: return False
+            if st == SQLType.HIVE and mysql_only: return False
+        elif isinstance(n, N.ASTAnalyzeTableStatement):
+            if st == SQLType.MYSQL and (n.partition is not None or n.for_columns or n.cache_metadata or n.noscan): return False
+        elif isinstance(n, N.ASTSingleSelectStatement):
+            if st != SQLType.HIVE and (n.sort_by_clause is not None or n.distribute_by_clause is not None or n.cluster_by_clause is not None):
+                return False
+    return True
+
+
 def round_trip(stmt, st):
     """C01 on one statement; returns (verdict, printed text or None)"""
     from metasequoia_sql import SQLParser
@@ -179,7 +220,9 @@ def respond(line, cfg_idx=None):
         out = []
         for s_ in stmts:
             v, y = round_trip(s_, st)
-            out.append(v + ("" if y is None or v == "ok" else "|" + q(y)))
+            if v != "ok" and not supports(s_, st):
+                v = "unsupported"
+            out.append(v + ("" if y is None or v in ("ok", "unsupported") else "|" + q(y)))
         return "OK " + " ".join(out)
     if op == "PR":
         from metasequoia_sql import SQLType, SQLParser
